@@ -40,7 +40,7 @@ func vc09CreateSchema(n *vgcNode, sc *vc09Schema) error {
 		{"s", []FieldOption{OptFieldTypeSet(CacheTypeRanked, 100)}},
 		{"m", []FieldOption{OptFieldTypeMutex(CacheTypeRanked, 100)}},
 		{"b", []FieldOption{OptFieldTypeBool()}},
-		{"t", []FieldOption{OptFieldTypeTime(TimeQuantum(sc.Quantum))}},
+		{"t", []FieldOption{OptFieldTypeTime(TimeQuantum(sc.Quantum), sc.NoStandardView)}},
 		{"v", []FieldOption{OptFieldTypeInt(sc.IntMin, sc.IntMax)}},
 		{"k", []FieldOption{OptFieldTypeSet(CacheTypeLRU, 100), OptFieldKeys()}},
 	}
